@@ -32,6 +32,10 @@ type RefSeg struct {
 	PadBit   uint8  `json:"padBit,omitempty"`
 	Frag     uint8  `json:"frag,omitempty"`
 	Window   uint16 `json:"win,omitempty"`
+	// Ack: an acknowledgement segment (type 8, no payload, no sequence number
+	// consumed) with the given paddings instead of a data segment. The
+	// document allows it on either transport.
+	Ack bool `json:"ack,omitempty"`
 }
 
 type AcceptCase struct {
@@ -119,6 +123,9 @@ func genAccept(t *rapid.T) AcceptCase {
 			}
 			s.Len = rapid.SampledFrom([]int{1, 3, 4, 5, 6, 7, 8, 1000, 4099, maxLen - 1, maxLen}).Draw(t, "len")
 		}
+		if rapid.IntRange(0, 4).Draw(t, "ack") == 0 {
+			s.Ack, s.LE, s.Len = true, false, 0
+		}
 		c.Segs = append(c.Segs, s)
 	}
 	nd := rapid.IntRange(0, 3).Draw(t, "nDown")
@@ -176,8 +183,20 @@ func propAccept(c AcceptCase) (o pbt.Outcome) {
 	o.Label("udp=%v", c.UDP)
 	o.Label("le=%v", le)
 	o.Label("segs=%d", len(c.Segs))
+	for _, s := range c.Segs {
+		if s.Ack {
+			o.Label("paddedAck=%v", s.Pad1 > 0 || s.Pad2 > 0)
+			if s.Pad1 > 0 || s.Pad2 > 0 {
+				o.NonTrivial = true
+			}
+		}
+	}
 
 	buildData := func(i int, s RefSeg, seq uint32, unack uint32) refproto.SegSpec {
+		if s.Ack {
+			m := refproto.Meta{Proto: refproto.AckClientToServer, Timestamp: minute(), SessionID: c.SessionID, Seq: seq, UnAck: unack, Window: s.Window}
+			return refproto.SegSpec{Meta: m, Pad1: padding(s.Pad1, c.Salt+uint64(i)), Pad2: padding(s.Pad2, c.Salt+uint64(i)+77), FixLengths: true}
+		}
 		payload := make([]byte, s.Len)
 		e2e.PRFFill(upKey, upTotal, payload)
 		upTotal += int64(s.Len)
@@ -277,7 +296,9 @@ func propAccept(c AcceptCase) (o pbt.Outcome) {
 			if _, err := conn.Write(b); err != nil {
 				return fail("accept", "server closed the connection while the reference was sending well-formed segment %d: %v", i, err)
 			}
-			seq++
+			if !s.Ack {
+				seq++
+			}
 		}
 		// read the server's direction until SOCKS response + Down bytes arrived
 		dec := refproto.NewStreamDecoder(keys)
@@ -417,7 +438,9 @@ func propAccept(c AcceptCase) (o pbt.Outcome) {
 			if err := send(spec, freshNonce()); err != nil {
 				return fail("harness", "send: %v", err)
 			}
-			seq++
+			if !s.Ack {
+				seq++
+			}
 		}
 		if err := pump(func() bool { return len(gotDown) >= len(wantDown) }, time.Now().Add(20*time.Second)); err != nil {
 			return fail("accept", "reference received %d of %d payload bytes from the server: %v", len(gotDown), len(wantDown), err)
